@@ -109,7 +109,7 @@ def split_unit(s):
 def run(rep, tier, seed):
     rnd = random.Random(seed)
     rep.assumptions += ["item boxes on a grid of quarter units incl. negative and fractional positions; border in {0,3,5}; scale in {1,2.5}",
-                        "path / polyline / use / clip-path extents are covered only by the output-geometry oracle on examples"]
+                        "paths: straight commands (M m L l H h V v Z z) through the path machine of Geom.tla; curves and arcs only through the examples"]
     recs = geom.run_geom_family(rep, "extent", tier, ["ExtentIdentities"])
     limit = 6000 if tier == "quick" else 60000
     if len(recs) > limit:
@@ -174,6 +174,58 @@ def run(rep, tier, seed):
     geom.run_and_compare(rep, cases, check, "c08")
     rep.notes["rule"] = "cases enumerated by TLC (Geom.tla ExtentCases): item lists x border x scale x supplied root attributes x order"
     rep.notes["exhaustive"] = tier == "thorough"
+
+    # the box of a path: command sequences enumerated by TLC (moveto / lineto / closepath, absolute
+    # and relative, several sub-paths), the box predicted by the path machine of Geom.tla
+    precs = geom.run_geom_family(rep, "pathbox", tier, ["PathBoxIdentities"])
+    pcases = []
+    for j, c in enumerate(precs):
+        prnd = random.Random(rnd.random())
+        unit = prnd.choice([1, 1, 0.5, 2.5])       # user units per model unit
+        def n(v):
+            return fstr(v * unit)
+        d = f"M{n(2)} {n(3)}" if prnd.random() < 0.5 else f"M {n(2)},{n(3)}"
+        for k in c["cmds"]:
+            sep = prnd.choice([" ", "", " "])
+            if k[0] in "zZ":
+                d += sep + k[0]
+            elif k[0] in "hHvV":
+                d += f"{sep}{k[0]}{prnd.choice(['', ' '])}{n(k[1])}"
+            else:
+                d += f"{sep}{k[0]}{prnd.choice(['', ' '])}{n(k[1])}{prnd.choice([' ', ','])}{n(k[2])}"
+        b = c["box"]
+        exp = (b["x1"] * unit, b["y1"] * unit, b["x2"] * unit, b["y2"] * unit)
+        form = j % 3
+        if form == 0:
+            xml = f'<svg><path d="{d}"/></svg>'
+        elif form == 1:
+            # the box is also what other elements are placed against
+            xml = f'<svg><path id="p" d="{d}"/><rect id="probe" xy="#p@tl" wh="#p"/></svg>'
+        else:
+            xml = f'<svg><g><path d="{d}" fill="none"/></g></svg>'
+        pcases.append({"k": f"c08p-{j}", "xml": xml, "case": c, "key": xml, "cfg": {"border": 0}, "exp": exp})
+
+    def pcheck(c, resp):
+        if resp["status"] != "ok":
+            return ("pathbox:not-ok", f"transform failed: {resp.get('err')}")
+        root = [x for x in vlib.parse_xml(resp["out"]).children if x.kind == "el"][0]
+        import math
+        e = c["exp"]
+        want = (math.floor(e[0] + 1e-9), math.floor(e[1] + 1e-9), math.ceil(e[2] - 1e-9), math.ceil(e[3] - 1e-9))
+        try:
+            vb = [float(t) for t in root.attrs.get("viewBox", "").split()]
+        except ValueError:
+            vb = []
+        if len(vb) != 4 or any(abs(g - w) > 0.0015 for g, w in zip((vb[0], vb[1], vb[0] + vb[2], vb[1] + vb[3]), want)):
+            return ("pathbox:viewBox", f"viewBox {root.attrs.get('viewBox')!r}; the path machine of the specification gives the box {e} (viewBox corners {want})")
+        pr = geom.find_by_id(resp["out"], "probe")
+        if pr is not None:
+            got = (float(pr.attrs.get("x", 0)), float(pr.attrs.get("y", 0)), float(pr.attrs.get("width", 0)), float(pr.attrs.get("height", 0)))
+            exp = (e[0], e[1], e[2] - e[0], e[3] - e[1])
+            if any(abs(g - w) > 0.0015 for g, w in zip(got, exp)):
+                return ("pathbox:relative", f"an element placed on the path's box got x/y/width/height {got}, the box is {exp}")
+        return None
+    geom.run_and_compare(rep, pcases, pcheck, "c08p")
 
     # second oracle: E recomputed from the output's own geometry, for the repository's examples
     import glob
